@@ -28,10 +28,11 @@ RULE = ("structured random cases: 2-6 forecast thresholds on the half-integer gr
         "coordinates, ordinates or weights outside [0,1], negative weights, unknown method names, a single threshold); 30 % of the calls are moved to "
         "base + scale * x (thresholds far from zero relative to their spacing: 1e6 at 1, 101325 at 1/16, 273 at 1/64, -2e6 at 2; a 2^-10 grid), "
         "observations up to 2^20 outside the thresholds, 12 % of the calls have a NaN in EVERY forecast CDF (single-case calls included), 10 % use "
-        "integer threshold coordinates; deterministic probes for each of these classes; a case is distinct by the hash "
+        "integer threshold coordinates; 12 % repeat the call with optional arguments of crps_cdf / crps_cdf_brier_decomposition / "
+        "crps_step_threshold_weight OMITTED (one, a subset, all) against the call with the documented defaults written out; deterministic probes for each of these classes; a case is distinct by the hash "
         "of all inputs and options and non-trivial when at least one forecast case has a finite score")
 ASSUMPTIONS = ["thresholds (forecast, weight, additional) are finite; observations are finite or NaN -- an infinite observation is outside the model and is "
-               "only checked through the relation 'scored as a missing observation' (known finding crps-cdf-infinite-observation)",
+               "only checked through the relation 'scored as a missing observation' (finding crps-cdf-infinite-observation, repaired in /repo by dfedbb7)",
                "threshold weights lie in [0,1]: fill_cdf rejects anything else with ValueError (modelled and checked)"]
 TRUSTED = ["hand model of xarray's interpolate_na(linear, extrapolate) / ffill / bfill / integrate / sum(min_count) in coq/model/Cdf.v (validated by correspondence)"]
 
@@ -836,6 +837,189 @@ def probe_every_case_has_nan(ctx):
                                       opt=dict(fcst_fill_method="linear", threshold_weight_fill_method="forward", integration_method="exact", propagate_nans=True)))
 
 
+# ------------------------------------------------------------------------------------------
+# defaults: every optional argument omitted vs written out at its documented default
+# ------------------------------------------------------------------------------------------
+# the documented default of every optional argument (signature + docstring of the pinned tree).  A call that omits an argument must be the
+# call that writes its documented default out -- and that explicit call is decided by the exact oracles (tie_crps / brier_tie_and_trapz).
+DOC_CRPS = dict(threshold_dim="threshold", threshold_weight=None, additional_thresholds=None, propagate_nans=True, fcst_fill_method="linear",
+                threshold_weight_fill_method="forward", integration_method="exact", reduce_dims=None, preserve_dims=None, weights=None,
+                include_components=False)
+DOC_BRIER = dict(threshold_dim="threshold", additional_thresholds=None, fcst_fill_method="linear", reduce_dims=None, preserve_dims=None)
+DOC_STEPW = dict(threshold_values=None, steppoints_in_thresholds=True, steppoint_precision=0, weight_upper=True)
+EXPECT_COUNTS += ["probe_defaults", "defaults:crps_cdf", "defaults:crps_cdf_brier_decomposition", "defaults:crps_step_threshold_weight"] + \
+    ["defaults:omitted:" + k for k in list(DOC_CRPS) + list(DOC_STEPW)]
+
+
+def pick_omitted(rng, names):
+    """which optional arguments the call leaves out: one, a random subset, or all of them"""
+    r = rng.random()
+    if r < 0.3:
+        return {rng.choice(names)}
+    if r < 0.45:
+        return set(names)
+    return {n for n in names if rng.random() < 0.4} or {rng.choice(names)}
+
+
+def same_result(a, b):
+    """two call_impl results: the same error class, or equal labelled values (NaN at the same places)"""
+    if a[0] != b[0]:
+        return False
+    return a[1] == b[1] if a[0] == "err" else bool(a[1].equals(b[1]))
+
+
+def show(r):
+    if r[0] == "err":
+        return r[1]
+    v = r[1]
+    return {n: np.asarray(v[n].values).tolist() for n in v.data_vars} if isinstance(v, xr.Dataset) else np.asarray(v.values).tolist()
+
+
+def to_default_td(da):
+    return None if da is None else da.rename({TD: "threshold"})
+
+
+def defaults_crps(ctx, c, omit=None):
+    """crps_cdf and crps_cdf_brier_decomposition with optional arguments OMITTED: the result must be the one of the call that writes the
+    documented default of each omitted argument out (threshold_dim 'threshold', no weight, no additional thresholds, propagate_nans,
+    'linear' / 'forward' fills, 'exact', mean over all dimensions, no components); the written-out call itself goes through the exact
+    oracles.  A default changed in a signature, or a keyword no longer forwarded, is invisible to calls that always pass it."""
+    if c["bad"]:
+        return
+    rng = ctx.rng
+    dims, labs = case_labels(c["sizes"])
+    for fn, doc in (("crps_cdf", DOC_CRPS), ("crps_cdf_brier_decomposition", DOC_BRIER)):
+        om = set(omit) & set(doc) if omit is not None else pick_omitted(rng, list(doc))
+        if not om:
+            continue
+        full = dict(threshold_dim=TD, additional_thresholds=c["add"], fcst_fill_method=c["opt"]["fcst_fill_method"], reduce_dims=None,
+                    preserve_dims=dims or None)
+        if fn == "crps_cdf":
+            full.update(threshold_weight=c["weight"], weights=None, include_components=True, **c["opt"])
+        full = {k: (doc[k] if k in om else v) for k, v in full.items()}      # the call with every documented default written out
+        fc, w = c["fcst"], full.get("threshold_weight")
+        if "threshold_dim" in om:
+            fc, w = to_default_td(fc), to_default_td(w)
+            if w is not None:
+                full["threshold_weight"] = w
+        f = getattr(S(), fn)
+        explicit = core.call_impl(f, fc, c["obs"], **full)
+        omitted = core.call_impl(f, fc, c["obs"], **{k: v for k, v in full.items() if k not in om})
+        desc = {"fn": fn, "fcst": gens.da_repr(fc), "obs": gens.da_repr(c["obs"]), "omitted_arguments": sorted(om),
+                "explicit_call": {k: (gens.da_repr(v) if isinstance(v, xr.DataArray) else v) for k, v in full.items()}}
+        ctx.case(("defaults", desc), nontrivial=explicit[0] == "ok")
+        ctx.count("defaults:" + fn)
+        for k in om:
+            ctx.count("defaults:omitted:" + k)
+        if not same_result(explicit, omitted):
+            ctx.violation(f"{fn} called without {sorted(om)} differs from the call that writes the documented defaults "
+                          f"({ {k: doc[k] for k in sorted(om)} }) out", desc, show(explicit), show(omitted))
+            continue
+        # the written-out call against the exact oracles (model + proved specification; per-threshold Brier definition)
+        c2 = dict(c, weight=None if "threshold_weight" in om else c["weight"], add=None if "additional_thresholds" in om else c["add"],
+                  opt={k: (doc[k] if k in om else v) for k, v in c["opt"].items()} if fn == "crps_cdf" else
+                  dict(c["opt"], fcst_fill_method=full["fcst_fill_method"]), wkind="defaults")
+        if fn == "crps_cdf_brier_decomposition":
+            brier_tie_and_trapz(ctx, c2)
+            continue
+        r = tie_crps(ctx, c2)
+        if r is not None and omitted[0] == "ok" and "preserve_dims" in om:
+            # nothing preserved: the NaN-skipping mean of the per-case values of the same call
+            for n in (NAMES if "include_components" not in om else NAMES[:1]):
+                per = [float(r[0][n].sel(dict(zip(dims, lb))).values) for lb in labs]
+                per = [v for v in per if not np.isnan(v)]
+                want = float(np.mean(per)) if per else NAN
+                got = float(omitted[1][n].values) if isinstance(omitted[1], xr.Dataset) else float(omitted[1].values)
+                if not same_or_both_nan(want, got, tol=1e-10):
+                    ctx.violation(f"crps_cdf without preserve_dims / reduce_dims is not the mean of the per-case scores ({n})", desc, want, got)
+                    break
+
+
+def rounded_to(x, prec):
+    """nearest multiple of prec, ties to even (numpy); 0 = unchanged"""
+    if prec == 0 or np.isnan(x) or np.isinf(x):
+        return x
+    q = Fraction(x) / Fraction(prec)
+    fl = q.numerator // q.denominator
+    r = q - fl
+    k = fl if r < Fraction(1, 2) else (fl + 1 if r > Fraction(1, 2) else (fl if fl % 2 == 0 else fl + 1))
+    return float(k * Fraction(prec))
+
+
+def defaults_step_weight(ctx, omit=None, sv=None, given=None):
+    """crps_step_threshold_weight: every optional argument omitted / written out (also at non-default values), against its documented
+    statement: thresholds = (rounded) step points (when included) and threshold_values; weight 1 where threshold >= (rounded) step point,
+    0 below (reversed when weight_upper is False); NaN for a NaN step point"""
+    rng = ctx.rng
+    sv = sv or [NAN if rng.random() < 0.1 else rng.randint(-4, 20) / 4.0 for _ in range(rng.randint(1, 4))]
+    n = len(sv)
+    sp = xr.DataArray(sv, dims=["a"], coords={"a": list(range(n))})
+    given = given or dict(threshold_values=None if rng.random() < 0.3 else [rng.randint(-2, 10) / 2.0 for _ in range(rng.randint(1, 4))],
+                 steppoints_in_thresholds=rng.random() < 0.6, steppoint_precision=rng.choice([0, 0, 0.5, 1, 0.25]), weight_upper=rng.random() < 0.5)
+    om = set(omit) if omit is not None else (pick_omitted(rng, list(DOC_STEPW)) if rng.random() < 0.8 else set())
+    full = {k: (DOC_STEPW[k] if k in om else v) for k, v in given.items()}
+    f = S().crps_step_threshold_weight
+    explicit = core.call_impl(f, sp, TD, **full)
+    omitted = core.call_impl(f, sp, TD, **{k: v for k, v in full.items() if k not in om})
+    desc = {"fn": "crps_step_threshold_weight", "step_points": sv, "omitted_arguments": sorted(om), "explicit_call": full}
+    ctx.case(("step_weight", desc), nontrivial=explicit[0] == "ok")
+    ctx.count("defaults:crps_step_threshold_weight")
+    for k in om:
+        ctx.count("defaults:omitted:" + k)
+    if not same_result(explicit, omitted):
+        ctx.violation(f"crps_step_threshold_weight called without {sorted(om)} differs from the call that writes the documented defaults out",
+                      desc, show(explicit), show(omitted))
+        return
+    prec, tv, inc = full["steppoint_precision"], full["threshold_values"], full["steppoints_in_thresholds"]
+    rs = [rounded_to(v, prec) for v in sv]
+    grid = sorted(set([v for v in rs if inc and not np.isnan(v)] + [float(t) for t in (tv or [])]))
+    if all(np.isnan(v) for v in sv) and tv is None:
+        if omitted[0] != "err":
+            ctx.violation("crps_step_threshold_weight must raise when there is neither a non-NaN step point nor a threshold value", desc, "err:ValueError", "a value")
+        return
+    if not grid:
+        return
+    if omitted[0] != "ok":
+        ctx.violation("crps_step_threshold_weight raises on a valid input", desc, "a value", omitted[1])
+        return
+    got = omitted[1]
+    if [float(t) for t in got[TD].values] != grid:
+        ctx.violation("crps_step_threshold_weight: thresholds are not the sorted union of the (rounded) step points and threshold_values", desc, grid,
+                      got[TD].values.tolist())
+        return
+    for k, s in enumerate(rs):
+        want = [NAN if np.isnan(s) else float((t >= s) == full["weight_upper"]) for t in grid]
+        g = [float(v) for v in got.sel(a=k).values]
+        if not all(same_or_both_nan(x, y, tol=0) for x, y in zip(want, g)):
+            ctx.violation("crps_step_threshold_weight is not the 0/1 step at the (rounded) step point (1 at and above it when weight_upper, 0 otherwise)",
+                          {**desc, "case": {"a": k}}, want, g)
+            return
+
+
+def probe_defaults(ctx):
+    """every optional argument of crps_cdf / crps_cdf_brier_decomposition / crps_step_threshold_weight omitted, one at a time and all at once,
+    on data where each default matters: observations between forecast thresholds and outside them, a NaN ordinate in one case, a general
+    weight on its own thresholds, additional thresholds, a CDF that is not flat anywhere"""
+    fc = xr.DataArray(np.array([[0.125, 0.25, 0.625, 0.75, 1.0], [0.0, 0.25, 0.5, 0.875, 1.0], [0.125, NAN, 0.5, 0.75, 0.875]]), dims=["a", TD],
+                      coords={"a": [0, 1, 2], TD: [0.0, 1.0, 2.0, 3.0, 4.0]})
+    w = xr.DataArray([0.25, NAN, 1.0, 0.5], dims=[TD], coords={TD: [0.5, 1.0, 2.5, 3.0]})
+    for (ovs, add), (f, wf, im, pr, wt) in zip((([1.5, 2.25, 0.5], None), ([1.0, 3.0, 2.0], [0.75, 3.5]), ([-1.5, 5.0, 2.0], None), ([0.25, 3.75, 1.0], [2.5])),
+                                               (("linear", "forward", "exact", True, None), ("step", "linear", "trapz", False, w),
+                                                ("backward", "step", "exact", False, w), ("forward", "backward", "trapz", True, w))):
+        ob = xr.DataArray(ovs, dims=["a"], coords={"a": [0, 1, 2]})
+        c = dict(fcst=fc, obs=ob, weight=wt, add=add, sizes={"a": 3}, wkind="probe", bad=None,
+                 opt=dict(fcst_fill_method=f, threshold_weight_fill_method=wf, integration_method=im, propagate_nans=pr))
+        for k in list(DOC_CRPS) + [list(DOC_CRPS)]:
+            defaults_crps(ctx, c, omit=[k] if isinstance(k, str) else k)
+            ctx.count("probe_defaults")
+    for k in list(DOC_STEPW) + [list(DOC_STEPW), []]:
+        defaults_step_weight(ctx, omit=[k] if isinstance(k, str) else k)
+        # non-default values for the arguments that stay: step points that are not multiples of the precision, not among threshold_values
+        for inc, prec, up in ((True, 1, False), (False, 0.5, True), (True, 0.5, False)):
+            defaults_step_weight(ctx, omit=[k] if isinstance(k, str) else k, sv=[0.25, 1.75, NAN, 2.5, -0.75],
+                                 given=dict(threshold_values=[0.0, 1.0, 2.5, 1.5], steppoints_in_thresholds=inc, steppoint_precision=prec, weight_upper=up))
+
+
 def sweep(ctx, full):
     """finite sweep: every line over {NaN, 0, 1/2, 1}^3 on thresholds (0, 1, 2) x 7 observation positions, one call per option combination"""
     vals = [NAN, 0.0, 0.5, 1.0]
@@ -876,6 +1060,7 @@ def run(ctx):
     probe_nondyadic_obs(ctx)
     probe_far_thresholds(ctx)
     probe_every_case_has_nan(ctx)
+    probe_defaults(ctx)
     sweep(ctx, full=(ctx.tier == "thorough"))
     n = ctx.n(330, 5000)
     for i in range(n):
@@ -910,3 +1095,7 @@ def run(ctx):
             alone_vs_batch(ctx, c)
         elif k < 0.88:
             inf_obs_as_missing(ctx, c)
+        else:
+            defaults_crps(ctx, c)
+            if k < 0.92:
+                defaults_step_weight(ctx)
